@@ -408,7 +408,7 @@ func (w *World) specAxioms(u *Unit, sp *SpecFunc) {
 		w.axiomsDone[u] = done
 	}
 	for _, ax := range w.CS.Lemmas {
-		if !ax.Axiom || done[ax.Name] || !strings.Contains(ax.Text, sp.Name+"(") {
+		if !ax.Axiom || ax.Inst != "" || done[ax.Name] || !strings.Contains(ax.Text, sp.Name+"(") {
 			continue
 		}
 		done[ax.Name] = true
@@ -690,4 +690,59 @@ func (w *World) implementsAxioms(u *Unit, iface types.Type, implFn string, iid i
 // externPanicPre: panicking preconditions of well-known externals (used by the safety sweep).
 func externPanicPre(fn *ssa.Function, args []Val, u *Unit) string {
 	return ""
+}
+
+
+// instAxioms instantiates "axiom N inst f: all(x, T, body)" at a ground application f(arg, ...):
+// x := arg (the first argument). Non-linear facts are handed to the solver only at the terms
+// that occur, never as quantified formulas.
+func (w *World) instAxioms(e *SpecEnv, sp *SpecFunc, args []Val) {
+	u := e.u
+	if len(args) == 0 || strings.Contains(args[0].T, "?") {
+		return
+	}
+	done := w.axiomsDone[u]
+	if done == nil {
+		done = map[string]bool{}
+		w.axiomsDone[u] = done
+	}
+	for _, ax := range w.CS.Lemmas {
+		if !ax.Axiom || ax.Inst != sp.Name {
+			continue
+		}
+		key := ax.Name + "@" + args[0].T
+		if done[key] || len(done) > 4000 {
+			continue
+		}
+		done[key] = true
+		x, err := parser.ParseExpr(ax.Text)
+		if err != nil {
+			w.fail("%s:%d: axiom %s: %v", ax.File, ax.Line, ax.Name, err)
+			continue
+		}
+		call, ok := x.(*ast.CallExpr)
+		if !ok || len(call.Args) != 3 {
+			w.fail("%s:%d: axiom %s: inst axioms must have the form all(x, T, body)", ax.File, ax.Line, ax.Name)
+			continue
+		}
+		id, ok := call.Args[0].(*ast.Ident)
+		if !ok {
+			continue
+		}
+		c := &SpecEnv{u: u, pkg: w.pkgByPath(ax.Pkg), vars: map[string]Val{id.Name: args[0]}, heap: e.heap, oldHeap: e.oldHeap, depth: e.depth + 1}
+		func() {
+			defer func() {
+				if r := recover(); r != nil {
+					if se, ok := r.(specErr); ok {
+						w.fail("%s:%d: axiom %s: %s", ax.File, ax.Line, ax.Name, string(se))
+						return
+					}
+					panic(r)
+				}
+			}()
+			v := c.expr(call.Args[2])
+			u.emit("(assert " + v.T + ")")
+			u.trusted["axiom "+ax.Name+" (instantiated at use): "+ax.Text] = true
+		}()
+	}
 }
